@@ -559,6 +559,9 @@ func init() {
 			c.Add(c18SubscribeReconnectRace(c.R, raceIters), "ws.subscribe-reconnect-race")
 			c.Add(c18UnsubscribeReconnectRace(c.R, raceIters), "ws.unsubscribe-reconnect-race")
 			for i := 0; i < nHTTP; i++ {
+				c.Add(c18HttpCancelScenario(c.R, 1+c.R.Intn(8), 1+c.R.Intn(6)), "http.cancel")
+			}
+			for i := 0; i < nHTTP; i++ {
 				c.Add(c18HttpScenario(c.R, 1+c.R.Intn(64), c.R.Intn(9), 0), "http")
 			}
 		},
@@ -585,6 +588,9 @@ func init() {
 					region = "rpcws.resubscribe.twice"
 				}
 				fs = append(fs, Finding{Kind: "violation", Region: region, Detail: ps})
+			}
+			if req["op"] == "rpchttp.run" && req["probe"] != nil {
+				return fs
 			}
 			if req["op"] == "rpchttp.run" {
 				if !same(normJ(jsonRound(req["implIssued"])), normJ(orc["issued"])) {
@@ -872,4 +878,86 @@ func c18UnsubscribeReconnectRace(r *Rng, iters int) map[string]any {
 	}
 	return map[string]any{"op": "rpcws.run", "reconnectEnabled": true, "ops": []any{}, "probe": "unsubscribe||reconnect", "iterations": total, "staleOwner": stale, "problems": problems,
 		"implCalls": map[string]any{}, "implSubs": map[string]any{}, "implFrames": []any{}, "implTables": map[string]any{"calls": 0, "pending": 0, "active": 0, "configured": 0}}
+}
+
+// HTTP: callers cancelled while they wait for a slot must neither take nor free one
+func c18HttpCancelScenario(r *Rng, limit int, queued int) map[string]any {
+	var inflight, maxInflight int64
+	release := make(chan struct{})
+	srv := httptest.NewServer(http.HandlerFunc(func(w http.ResponseWriter, rq *http.Request) {
+		b, _ := io.ReadAll(rq.Body)
+		var req map[string]any
+		_ = json.Unmarshal(b, &req)
+		n := atomic.AddInt64(&inflight, 1)
+		for {
+			m := atomic.LoadInt64(&maxInflight)
+			if n <= m || atomic.CompareAndSwapInt64(&maxInflight, m, n) {
+				break
+			}
+		}
+		<-release
+		atomic.AddInt64(&inflight, -1)
+		w.Header().Set("Content-Type", "application/json")
+		_ = json.NewEncoder(w).Encode(map[string]any{"jsonrpc": "2.0", "id": req["id"], "result": 1})
+	}))
+	defer srv.Close()
+	rc := rpcbackend.NewRPCClientWithOption(resty.New().SetBaseURL(srv.URL), rpcbackend.RPCClientOptions{MaxConcurrentRequest: int64(limit)})
+	var problems []string
+	var pmu sync.Mutex
+	var wg sync.WaitGroup
+	call := func(ctx context.Context, c int, expectCancel bool) {
+		defer wg.Done()
+		idText := fmt.Sprintf(`"q-%d"`, c)
+		res, err := rc.SyncRequest(ctx, &rpcbackend.RPCRequest{Method: "m", ID: fftypes.JSONAnyPtr(idText)})
+		pmu.Lock()
+		defer pmu.Unlock()
+		if res == nil || res.ID == nil || res.ID.String() != idText {
+			problems = append(problems, fmt.Sprintf("caller %d (id %s) received a response carrying id %v", c, idText, res))
+		}
+		if expectCancel && err == nil {
+			problems = append(problems, fmt.Sprintf("caller %d was cancelled while queued but its request went through", c))
+		}
+	}
+	for c := 0; c < limit; c++ {
+		wg.Add(1)
+		go call(context.Background(), c, false)
+	}
+	deadline := time.Now().Add(3 * time.Second)
+	for atomic.LoadInt64(&inflight) < int64(limit) && time.Now().Before(deadline) {
+		time.Sleep(50 * time.Microsecond)
+	}
+	var cancels []context.CancelFunc
+	for c := 0; c < queued; c++ {
+		ctx, cancel := context.WithCancel(context.Background())
+		cancels = append(cancels, cancel)
+		wg.Add(1)
+		go call(ctx, 100+c, true)
+	}
+	time.Sleep(2 * time.Millisecond)
+	for _, cancel := range cancels {
+		cancel()
+		time.Sleep(time.Duration(r.Intn(200)) * time.Microsecond)
+	}
+	time.Sleep(2 * time.Millisecond)
+	// more callers arrive after the cancellations: they must queue, all slots are still held
+	for c := 0; c < 1+r.Intn(3); c++ {
+		wg.Add(1)
+		go call(context.Background(), 200+c, false)
+	}
+	time.Sleep(5 * time.Millisecond)
+	if m := atomic.LoadInt64(&maxInflight); int(m) > limit {
+		problems = append(problems, fmt.Sprintf("%d requests outstanding at the backend with a limit of %d (after cancelling %d queued callers)", m, limit, queued))
+	}
+	close(release)
+	fin := make(chan struct{})
+	go func() { wg.Wait(); close(fin) }()
+	select {
+	case <-fin:
+	case <-time.After(5 * time.Second):
+		problems = append(problems, "hang: HTTP callers did not complete after the backend answered (a slot was not released)")
+	}
+	if m := atomic.LoadInt64(&maxInflight); int(m) > limit {
+		problems = append(problems, fmt.Sprintf("%d requests outstanding at the backend with a limit of %d", m, limit))
+	}
+	return map[string]any{"op": "rpchttp.run", "limit": limit, "ops": []any{}, "implMaxInflight": maxInflight, "implIssued": 0, "probe": "cancel-while-queued", "problems": problems}
 }
